@@ -168,9 +168,33 @@ def as_list(x):
     return x
 
 
+def is_int_list(x):
+    """x is a list all of whose elements are ints (symbolically: the LI representation of a dynamic value)."""
+    return isinstance(x, list) and all(isinstance(e, int) for e in x)
+
+
+def same_members(a, b):
+    """a and b (sets / lists / tuples of ints) have the same members. Natively set(a) == set(b); symbolically the
+    STRONGER statement that the sequences the collections were built from are equal (so a proof is sound)."""
+    return set(a) == set(b)
+
+
+def dict_put(d, k, v):
+    """Pure dict update: a copy of d with d[k] = v (symbolically: Store)."""
+    r = dict(d)
+    r[k] = v
+    return r
+
+
 def ih(lemma_fn, *args):
     """Inside a lemma proved by induction: the induction hypothesis at structurally smaller arguments
     (first argument must be a strictly shorter sequence / smaller non-negative int). Natively a no-op."""
+    return True
+
+
+def use(lemma_fn, *args):
+    """Assume the claim of a separately proved @lemma at these arguments (inside a lemma: only lemmas defined
+    earlier in the same file, so reasoning cannot be circular). Natively a no-op."""
     return True
 
 
